@@ -113,8 +113,9 @@ class Unit:
     def __init__(self, id, fn, pre=None, post=None, replace=(), cfg='abacus', backends=('sat',), timeout=120,
                  tier='quick', cxx=None, note='', split=False, loop_contracts=None, ghost=None, extra_flags=(),
                  lemma=False, requires_extra=(), ensures_extra=(), no_canary=False, ub_only=False, unwind=None,
-                 object_bits=None, defines=(), link_src=False, expect_props=(), engine='bv', prelude='', replace_raw=(), needs=(), bounded=None, native_post=None, assigns_extra=(), cut_check=None, role_binder=None, role_fn=None):
+                 object_bits=None, defines=(), link_src=False, expect_props=(), engine='bv', prelude='', replace_raw=(), needs=(), bounded=None, native_post=None, assigns_extra=(), cut_check=None, role_binder=None, role_fn=None, ignore_desc=None):
         self.engine = engine
+        self.ignore_desc = ignore_desc
         self.role_fn = role_fn
         self.role_binder = role_binder
         self.assigns_extra = list(assigns_extra)
@@ -445,6 +446,12 @@ def solve_unit(unit, workdir, seed=0):
         return res
     res['meta'] = meta
     props = list_props(unit, b)
+    if unit.ignore_desc:
+        # obligations generated by a blanket CBMC flag that are NOT part of the contract (e.g. intended modular unsigned
+        # negation under --unsigned-overflow-check, which is there for the sum of squares only)
+        dropped = [p for p in props if re.search(unit.ignore_desc, p[1])]
+        props = [p for p in props if not re.search(unit.ignore_desc, p[1])]
+        res['ignored_obligations'] = [p[0] for p in dropped]
     if not props:
         res['errors'].append('%s: no properties generated (vacuous)' % unit.id)
         return res
